@@ -117,7 +117,10 @@ def per_type(ctx, config, w, delegated=False):
             t = one(outs)
             if q.kind == "dimless":
                 # one unit of scale one: the like-quantity ratio q / as_qty(ONE) is q itself (x / 1 = x exactly)
-                Dq = q_
+                # (written with the ratio spelled out — `q / as_qty(unit)`, the amount type's own division by 1 — it is
+                # that node instead)
+                spelled = ("/", q_, S.app("Unit::as_qty", ps[3] if op == "*" else ps[1]))
+                Dq = spelled if t is not None and T.canon(spelled) in [T.canon(x) for x in __import__("qcheck.magn", fromlist=["x"]).arith_nodes(t)] else q_
                 want = S.new(S.R(("*", ("/", Dq, ps[2]), ps[0])), ps[1]) if op == "*" else S.new(S.R(("*", ("/", Dq, ps[0]), ps[2])), ps[3])
                 text = "new(q / per_unit_multiple * term_amount, term_unit)" if op == "*" else "new(q / term_amount * per_unit_multiple, per_unit)"
             elif op == "*":
@@ -165,35 +168,34 @@ def per_type(ctx, config, w, delegated=False):
 
 
 def borrowed_rate_forms(ctx, config, w):
-    """`&rate * q` (and the like), should the tree have any, must forward to the by-value `rate * q` with the
-    operands dereferenced in order."""
+    """Borrowed-operand variants of the rate operators (`&rate * q`, `q * &rate`, `q / &rate`, ...), should the tree
+    have any, must forward to the by-value operator of the same operand types with the operands dereferenced in order."""
     U = w.U
     n = 0
+    sym = {"*": ("core::ops::arith::Mul", "mul"), "/": ("core::ops::arith::Div", "div")}
     for c in w.crates:
         if c.is_test:
             continue
         for (op, s_, r_, o, imp) in U.op_impls(c):
-            if op != "*" or not s_.lstrip("&").startswith("quantities::rate::Rate<") or (s_, r_) == (s_.lstrip("&"), r_.lstrip("&")):
+            ss, rs = s_.lstrip("&"), r_.lstrip("&")
+            if op not in sym or (s_, r_) == (ss, rs) or not (ss.startswith("quantities::rate::Rate<") or rs.startswith("quantities::rate::Rate<")):
                 continue
-            inst = "%s/%s * %s" % (config, s_, r_)
-            b = U.item_body(imp, "mul")
+            tr, fn = sym[op]
+            inst = "%s/%s %s %s" % (config, s_, op, r_)
+            b = U.item_body(imp, fn)
             ok, why = False, "no body"
             if b is not None:
                 ev = T.Evaluator(U, keep_tags=False, max_depth=0)
                 try:
                     outs = ev.summarize(b)
                     t = one([(g, k, T.canon(x)) for g, k, x in outs])
-                    calls = [f for f in ev.calls_seen if f.get("trait") == "core::ops::arith::Mul"]
+                    calls = [f for f in ev.calls_seen if f.get("trait") == tr]
                     ok = (t is not None and t[0] == "app" and t[3] == (S.P(0, "self"), S.P(1, "rhs")) and len(ev.calls_seen) == 1 and len(calls) == 1
-                          and model.ty_key(calls[0]["args"][0]).startswith("quantities::rate::Rate<")
-                          and ((calls[0].get("resolved") or {}).get("path") == U.resolve_item(RATE_MUL)
-                               # (behind a `Rate<TQ, PQ>: Mul<PQ>` bound the callee is named by its operand types only)
-                               or (calls[0].get("resolved") is None
-                                   and model.alpha([model.ty_key(a) for a in calls[0]["args"]]) == [s_.lstrip("&"), r_.lstrip("&")])))
+                          and model.alpha([model.ty_key(a) for a in calls[0]["args"]]) == model.alpha([ss, rs]))
                     why = "body is %s" % (T.show(t) if t else outs)
                 except T.Unsupported as x:
                     why = "unsupported construct: " + x.what
-            ctx.ob("rate-ref-form", inst, ok, "borrowed rate operator does not forward to the by-value `rate * q`: %s" % why, (b or imp)["span"], nontrivial=False)
+            ctx.ob("rate-ref-form", inst, ok, "borrowed rate operator does not forward to the by-value operator: %s" % why, (b or imp)["span"], nontrivial=False)
             n += 1
     return n
 
